@@ -51,7 +51,7 @@ Proof.
   decide equality. decide equality; apply str_eq_dec.
 Defined.
 Fixpoint pkind_eq_dec (a b : pkind) : {a = b} + {a <> b}.
-Proof. decide equality. Defined.
+Proof. decide equality; apply str_eq_dec. Defined.
 Definition fout_eq_dec : forall a b : fout, {a = b} + {a <> b}.
 Proof.
   decide equality; try apply str_eq_dec; try apply bool_dec; try apply N.eq_dec; try apply pkind_eq_dec.
